@@ -364,7 +364,7 @@ class Conic(Quadric):
         y = Point(c1 * a1 - c2 * a2, copy=False)
 
         conic = cls.from_points(a, b, c, d, x)
-        if np.all(np.isreal(conic.array)):
+        if np.all(np.isreal(conic.array)) and not conic.is_degenerate:
             return conic
         return cls.from_points(a, b, c, d, y)
 
